@@ -857,3 +857,98 @@ def _one_encoding(ctx, fam, cell, ftext, tag):
         ctx.violation(f"{base}:differs-from-{ftext}-of-the-same-content", f"ml.{fpath}(path): {M.describe(by_path)}; ml.{ftext}(text): {M.describe(by_text)}", case)
     elif by_path[0] == "ok":
         ctx.nontrivial((fam.name, tuple(sorted((k, str(v)) for k, v in cell.items()))))
+
+
+# =================================================================================================
+# SPELLING cells - name-valued arguments in lower / Capitalised / UPPER case
+# =================================================================================================
+def _spellings(s):
+    out = []
+    for v in (s.capitalize(), s.upper(), s.title()):
+        if v != s and v not in out:
+            out.append(v)
+    return out
+
+
+def run_spelling_cells(ctx, fam, given):
+    """writer= / parser= names are matched case-insensitively by every entry point (reader.py and writer.py
+    lower() them): the call with 'Molli' / 'MOLLI' / 'OpenBabel' / 'OBABEL' ... has the outcome of the
+    all-lower-case call, on dump (stream, path), dumps, load, loads, load_all, loads_all.  fmt and the otype
+    strings are matched as they are: another spelling gives the lower-case result or is refused."""
+    tag = getattr(fam, "sigtag", "")
+    n = 0
+
+    def same(a, b):
+        if a[0] != b[0]:
+            return False
+        if a[0] == "exc":
+            return a[1] == b[1]
+        x, y = a[1], b[1]
+        return x == y if isinstance(x, str) or x is None else M.snap(x) == M.snap(y)
+
+    def check(func, arg, what, lower_thunk, thunk, strict, case, sigbase):
+        nonlocal n
+        n += 1
+        exp = M.outcome_of(lower_thunk)
+        got = M.outcome_of(thunk)
+        ctx.count(evaluations=1, transitions=2, traces=1)
+        ctx.outcome(("spelling", func, arg, got[0], got[1] if got[0] == "exc" else None))
+        if same(exp, got):
+            if got[0] == "ok":
+                ctx.nontrivial((fam.name, func, what))
+            return
+        if not strict and got[0] == "exc":
+            return  # fmt / otype are matched literally: another spelling may be refused
+        sym = f"raised-{got[1]}" if got[0] == "exc" else "differs-from-lower-case-call"
+        ctx.violation(f"{sigbase}:{sym}", f"{what}: {M.describe(got) if got[0] == 'exc' or not isinstance(got[1], (str, type(None))) else 'returned'}; the all-lower-case call {M.describe(exp) if exp[0] == 'exc' or not isinstance(exp[1], (str, type(None))) else 'returned'}", case)
+
+    objs = {k: M.make_object(fam, k, "none", given) for k in ("Molecule", "ConformerEnsemble")}
+    d = fam.dir / "spelling"
+    d.mkdir(exist_ok=True)
+    for fmt in ("xyz", "mol2"):
+        # ---- writers ----
+        for okind, obj in objs.items():
+            if obj is None:
+                continue
+            for wname in ("molli", "openbabel", "obabel"):
+                for sp in _spellings(wname):
+                    base = {"op": "spelling", "fmt": fmt, "otype": okind, "arg": "writer", "lower": wname, "spelled": sp}
+                    case = lambda func, kind: {"family": list(fam.spec), "cell": dict(base, func=func, kind=kind), "given": given}  # noqa: E731
+                    check("dumps", "writer", f"ml.dumps({okind}, {fmt!r}, writer={sp!r})", lambda: ml.dumps(obj, fmt, writer=wname), lambda: ml.dumps(obj, fmt, writer=sp), True, case("dumps", "str"), f"dumps|{fmt}|str|{M.oclass(okind)}|writer-spelling{tag}")
+
+                    def to_stream(w):
+                        s = io.StringIO()
+                        ml.dump(obj, s, fmt, writer=w)
+                        return s.getvalue()
+
+                    check("dump", "writer", f"ml.dump({okind}, StringIO, {fmt!r}, writer={sp!r})", lambda: to_stream(wname), lambda: to_stream(sp), True, case("dump", "stringio"), f"dump|{fmt}|stream|{M.oclass(okind)}|writer-spelling{tag}")
+
+                    def to_path(w):
+                        p = d / f"out.{fmt}"
+                        p.write_text("")
+                        ml.dump(obj, str(p), fmt, writer=w, mode="w")
+                        return p.read_text()
+
+                    check("dump", "writer", f"ml.dump({okind}, path, {fmt!r}, writer={sp!r})", lambda: to_path(wname), lambda: to_path(sp), True, case("dump", "pathstr"), f"dump|{fmt}|path|{M.oclass(okind)}|writer-spelling{tag}")
+            for sp in _spellings(fmt):
+                base = {"op": "spelling", "fmt": fmt, "otype": okind, "arg": "fmt", "lower": fmt, "spelled": sp}
+                check("dumps", "fmt", f"ml.dumps({okind}, {sp!r})", lambda: ml.dumps(obj, fmt), lambda: ml.dumps(obj, sp), False, {"family": list(fam.spec), "cell": dict(base, func="dumps", kind="str"), "given": given}, f"dumps|{fmt}|str|{M.oclass(okind)}|fmt-spelling{tag}")
+        # ---- readers ----
+        for func in M.READERS:
+            src = str(fam.path[fmt]) if func in ("load", "load_all") else fam.text[fmt]
+            kind = "pathstr" if func in ("load", "load_all") else "str"
+            f = getattr(ml, func)
+            for pname in ("molli", "openbabel", "obabel"):
+                for sp in _spellings(pname):
+                    base = {"op": "spelling", "func": func, "kind": kind, "fmt": fmt, "otype": "molecule", "arg": "parser", "lower": pname, "spelled": sp}
+                    check(func, "parser", f"ml.{func}({kind}, {fmt!r}, parser={sp!r})", lambda: f(src, fmt, parser=pname), lambda: f(src, fmt, parser=sp), True, {"family": list(fam.spec), "cell": base, "given": given}, f"{func}|{fmt}|{M.kindclass(kind)}|molecule|parser-spelling{tag}")
+            for ot in ("molecule", "ensemble"):
+                if ot == "ensemble" and func in ("load_all", "loads_all"):
+                    continue
+                for sp in _spellings(ot):
+                    base = {"op": "spelling", "func": func, "kind": kind, "fmt": fmt, "otype": ot, "arg": "otype", "lower": ot, "spelled": sp}
+                    check(func, "otype", f"ml.{func}({kind}, {fmt!r}, otype={sp!r})", lambda: f(src, fmt, otype=ot), lambda: f(src, fmt, otype=sp), False, {"family": list(fam.spec), "cell": base, "given": given}, f"{func}|{fmt}|{M.kindclass(kind)}|{M.oclass(ot)}|otype-spelling{tag}")
+            for sp in _spellings(fmt):
+                base = {"op": "spelling", "func": func, "kind": kind, "fmt": fmt, "otype": "molecule", "arg": "fmt", "lower": fmt, "spelled": sp}
+                check(func, "fmt", f"ml.{func}({kind}, {sp!r})", lambda: f(src, fmt), lambda: f(src, sp), False, {"family": list(fam.spec), "cell": base, "given": given}, f"{func}|{fmt}|{M.kindclass(kind)}|molecule|fmt-spelling{tag}")
+    ctx.count(states=n)
